@@ -176,7 +176,7 @@ def prefix_for(inp, s, m):
         full = (lambda x: x["name"]) if "-n" in o else (lambda x: os.path.join(inp["dir"], x["name"]))
         width = 0
         if "-w" in o:
-            width = max(len(full(x)) for x in inp["sources"] if any(in_window(inp, mm) for mm in x["msgs"]))
+            width = max([len(full(x)) for x in inp["sources"] if any(in_window(inp, mm) for mm in x["msgs"])] or [0])
         parts.append(full(s).ljust(width))
     if "-d" in o:
         sec, ns = divmod(m["inst"], 10**9)
@@ -314,3 +314,43 @@ def save_input(inp, dest):
         shutil.rmtree(dest)
     shutil.copytree(inp["dir"], dest)
     return dest
+
+
+def save_failure(prop, seed, inp, plan, exp_bytes, n, extra=None):
+    """copy a failing input (files + expected stdout) under replays/<prop>-inputs and return the case dict"""
+    dest = os.path.join(vlib.ROOT, "replays", "%s-inputs" % prop, "%d-%d" % (seed, n))
+    os.makedirs(os.path.dirname(dest), exist_ok=True)
+    save_input(inp, dest)
+    with open(os.path.join(dest, "EXPECTED_STDOUT"), "wb") as f:
+        f.write(exp_bytes)
+    av = [a.replace(inp["dir"], dest) for a in argv(inp)]
+    c = dict(dir=dest, argv=av, plan=plan, describe=describe(inp))
+    if extra:
+        c.update(extra)
+    return c
+
+
+def replay_failures(prop, path, repeats=1):
+    import json
+    r = json.load(open(path))
+    vlib.build_s4()
+    bad = 0
+    for f in r.get("failures", []):
+        c = f["case"]
+        plans = c.get("plans") or [c.get("plan")]
+        expb = open(os.path.join(c["dir"], "EXPECTED_STDOUT"), "rb").read()
+        for plan in plans:
+            for k in range(repeats):
+                env = {"TZ": "UTC"}
+                if plan:
+                    env["S4_VERIF_PLAN"] = plan
+                rc, out, err = vlib.run_s4(c["argv"], timeout=60, env=env)
+                same = (rc == 0 and out == expb)
+                print("replay plan=%s rc=%d stdout %s expected (%d vs %d bytes)  argv=%s" % (
+                    plan, rc, "==" if same else "!=", len(out), len(expb), " ".join(c["argv"])))
+                if not same:
+                    bad += 1
+    if bad:
+        print("VIOLATION property=%s replay=%s" % (prop, path))
+        return 1
+    return 0
